@@ -106,6 +106,30 @@ def m_big_divrem(ex, a, callee, canon):
     return Big(bigdiv(x, y) if canon.endswith("div") else bigrem(x, y))
 
 
+@model(r"^<BigInt as (num_traits::)?ToPrimitive>::to_(i32|i64|u32|u64)$")
+def m_big_to_prim(ex, a, callee, canon):
+    t = deref(a[0]).t
+    ty = canon.rsplit("to_", 1)[1]
+    n = INT_BITS[ty]
+    if is_signed(ty):
+        fits = z3.And(t >= z3.BitVecVal(-(1 << (n - 1)), BW), t <= z3.BitVecVal((1 << (n - 1)) - 1, BW))
+    else:
+        fits = z3.And(t >= 0, t <= z3.BitVecVal((1 << n) - 1, BW))
+    if ex.decide(fits):
+        return some(Int(z3.Extract(n - 1, 0, t), ty))
+    return NONE()
+
+
+@model(r"^BigInt::sign$")
+def m_big_sign(ex, a, callee, canon):
+    t = deref(a[0]).t
+    if ex.decide(t == 0):
+        return sign_enum("NoSign")
+    if ex.decide(t < 0):
+        return sign_enum("Minus")
+    return sign_enum("Plus")
+
+
 @model(r"^<BigInt as Neg>::neg$")
 def m_big_neg(ex, a, callee, canon):
     return Big(-a[0].t)
